@@ -44,7 +44,10 @@ from ipv8.messaging.anonymization.payload import (
     ExtendPayload,
 )
 from ipv8.messaging.anonymization.caches import RetryRequestCache
-from ipv8.messaging.anonymization.tunnel import CIRCUIT_STATE_READY, FORWARD
+from ipv8.messaging.anonymization.community import TunnelCommunity
+from ipv8.messaging.anonymization.tunnel import CIRCUIT_STATE_READY, FORWARD, PEER_FLAG_EXIT_BT
+from ipv8.messaging.interfaces.udp.endpoint import UDPv4Address
+from ipv8.peer import Peer
 from ipv8_rust_tunnels import crypto_auth, crypto_auth_verify, generate_session_keys
 
 from .. import core, fixtures, seams
@@ -300,7 +303,13 @@ class Monitor:
             if not self._auth_ok(att, f):
                 reasons.append("invalid-auth")
             if att["kind"] == "create" and pre > 0:
+                # the peer was selected as FIRST hop (contacted directly with a create), not for position `pre`
                 self.notes["create-answer-accepted-as-later-hop"] += 1
+                self.flag("hop-list:first-hop-answer-appended-as-later-hop",
+                          f"{where}: {self.pub2name.get(att['selected'], '?')} was contacted directly with a create "
+                          f"(selected as first hop) but its answer was appended behind "
+                          f"{[self.pub2name.get(h.public_key_bin, '?') for h in c.hops[:pre]]}; no extend was sent for "
+                          f"position {pre}")
         if MECHANISM_CHECKS:
             for r in reasons:
                 self.flag(f"accept:{r}", f"{where} although: {r} (answer identifier {f['ident']}, outstanding "
@@ -936,6 +945,46 @@ def _restrict(w: TunnelWorld, h: int, spare: bool) -> None:
             w.restrict("S", ["X"])
 
 
+def apply_history(w: TunnelWorld, hist: dict, seed: int) -> None:
+    """
+    "Peer moved": all nodes honest.  The exit X the originator is going to select was known to everybody on address a1.
+    Optionally it is churned out of every other node's Network (removal "own": with the Network's own Peer object,
+    "foreign": with an equal but distinct object, as another overlay sharing the Network does), one sweep period passes,
+    (everywhere, or - "relays" - everywhere but at the originator), X comes back on a new address a2 and re-introduces itself (signed introduction request) to everybody or - when the
+    others forgot it, so that they depend on the address the originator supplies - to the originator only.
+    Another honest exit node Z now lives on a1 and, like every tunnel node, answers any create.
+    """
+    w.run_for(6.0)                                   # warm caches: every node ran do_circuits/do_remove/get_peers twice
+    x = w.nodes["X"]
+    old = tuple(x.address)
+    key = x.my_peer.public_key.key_to_bin()
+    others = [n for n in w.nodes if n != "X"]
+    if hist["removal"] != "none":
+        for n in (others if hist.get("where", "all") == "all" else [n for n in others if n != "O"]):
+            net = w.nodes[n].network
+            own = net.get_verified_by_public_key_bin(key)
+            if own is not None:
+                net.remove_peer(own if hist["removal"] == "own" else Peer(key, own.address))
+        w.run_for(6.0)                               # one do_remove sweep on every node
+    new = UDPv4Address("9.9.8.8", 1099)
+    del w.endpoints[old]
+    x.address = new
+    x.endpoint.address = new
+    w.endpoints[tuple(new)] = x.endpoint
+    x.my_peer.address = new
+    for o in x.overlays:
+        o.my_estimated_wan = o.my_estimated_lan = new
+    z = w.add_node("Z", seed + 10, address=UDPv4Address(*old))
+    st = TunnelCommunity.settings_class()
+    st.peer_flags = set(EXIT_ALL)
+    st.min_circuits = st.max_circuits = 0
+    w.ov["Z"] = z.add_overlay(TunnelCommunity, st)
+    for n in (others if hist["reintro"] == "all" else ["O"]):
+        x.run(w.ov["X"].walk_to, w.nodes[n].address)
+    w.flush()
+    w.run_for(6.0)                                   # another sweep: candidates are pruned / refreshed
+
+
 def run_one(scn: tuple, plan: list[dict], seed: int):  # noqa: ANN201
     """-> (violations [(key, what)], observation, info)"""
     h, ncirc, spare = scn
@@ -945,20 +994,30 @@ def run_one(scn: tuple, plan: list[dict], seed: int):  # noqa: ANN201
         roles.update(SPARE_ROLES)
     w = TunnelWorld(("c08", seed, h, ncirc, spare), roles, key_offset=seed)
     try:
+        hist = next((m for m in plan if m["site"] == "history"), None)
+        if hist is not None:
+            apply_history(w, hist, seed)
+        t0 = w.loop.time()
         adv = Adversary(w, seed)
         mon = Monitor(w, adv)
         icp = Interceptor(w, scn, plan, mon, adv)
+        if any(m["site"] == "sched" for m in plan):
+            _batch_delivery(w, icp)
         ov = w.ov["O"]
         exit_peer = w.peer_of("O", "X")
         _restrict(w, h, spare)
         circuits = []
         for _ in range(ncirc):
-            c = w.nodes["O"].run(ov.create_circuit, h, required_exit=exit_peer)
+            if hist is not None:
+                # let the originator pick the exit from its own candidate table (only X qualifies after _restrict)
+                c = w.nodes["O"].run(ov.create_circuit, h, exit_flags=[PEER_FLAG_EXIT_BT])
+            else:
+                c = w.nodes["O"].run(ov.create_circuit, h, required_exit=exit_peer)
             if c is None:
-                return [("harness:create_circuit-refused", f"{scn}")], None, {}
+                return [("honest:create_circuit-refused" if hist is not None else "harness:create_circuit-refused", f"{scn} plan={_show(plan)}: the originator could not start the circuit")], None, {}
             circuits.append(c)
         w.flush()
-        honest = not plan
+        honest = all(m["site"] in ("sched", "history") for m in plan)
         if honest:
             _honest_checks(w, mon, circuits, h, "after build")
         gaps = [p for p in icp.pending if p["cond"][0] == "gap"]
@@ -966,7 +1025,7 @@ def run_one(scn: tuple, plan: list[dict], seed: int):  # noqa: ANN201
             # deliver the held-back answer in the k-th loop iteration at the RetryRequestCache deadline
             p = gaps[0]
             sent = max((a[-1]["t"] for a in mon.attempts.values() if a), default=0.0)
-            deadline = sent + ov.settings.next_hop_timeout
+            deadline = sent + ov.settings.next_hop_timeout     # attempt times are absolute loop times
             if deadline - 0.001 > w.loop.time():
                 w.run_for(deadline - 0.001 - w.loop.time())
             seams.CLOCK.set(deadline)
@@ -977,7 +1036,7 @@ def run_one(scn: tuple, plan: list[dict], seed: int):  # noqa: ANN201
             w.deliver_datagram(p["dg"], False)
             w.loop.iteration()
             mon.step()
-        w.run_for(HORIZON - w.loop.time() if gaps else HORIZON)
+        w.run_for(HORIZON - (w.loop.time() - t0) if gaps else HORIZON)
         if honest:
             _honest_checks(w, mon, circuits, h, f"after {HORIZON:.0f}s")
         mon.final()
@@ -1000,6 +1059,29 @@ def run_one(scn: tuple, plan: list[dict], seed: int):  # noqa: ANN201
         return viol, obs, info
     finally:
         w.close()
+
+
+def _batch_delivery(w: TunnelWorld, icp: Interceptor) -> None:
+    """
+    Scheduling mode "batch": datagrams queued back-to-back for the same node are handed to it in ONE loop iteration
+    (no ready-queue drain between them).  That is what endpoints do that post every datagram with call_soon(_threadsafe)
+    - ipv8_rust_tunnels' RustEndpoint (the production tunnel endpoint), the test suite's MockEndpoint - or that read
+    several datagrams per poll (uvloop); the stock selector UDP transport reads one datagram per iteration.
+    """
+    plain = w.deliver_datagram          # the monitor's wrapper: runs the oracle after a settled delivery
+
+    def deliver(idx: int = 0, settle: bool = True):  # noqa: ANN202
+        dg = w.inflight.pop(idx)
+        group = [dg]
+        while idx == 0 and w.inflight and tuple(w.inflight[0].dst) == tuple(dg.dst):
+            group.append(w.inflight.pop(0))
+        for g in group[:-1]:
+            plain(g, False)
+        plain(group[-1], settle)
+        if len(group) > 1 and "sched:batch" not in icp.applied:
+            icp.applied.append("sched:batch")
+        return dg
+    w.deliver = deliver
 
 
 def _honest_checks(w: TunnelWorld, mon: Monitor, circuits: list, h: int, when: str) -> None:
@@ -1276,6 +1358,25 @@ def build_jobs(thorough: bool, seed: int) -> tuple[list, dict]:
                        or (m["site"] in ("req0", "reqenc") and m["c"] == 1 and tuple(m["when"]) in (("sends", 0), ("t", 10.5)))
                        or (m["op"] == "flip" and m.get("i") == 0 and m["c"] == 1)]
         jobs += [(scn, [m]) for m in singles]
+        # scheduling mode "batch" (see _batch_delivery): the honest build, and every immediate duplicate of a request or
+        # of an answer, with back-to-back datagrams for one node handled in a single loop iteration
+        sched = {"site": "sched", "op": "batch"}
+        batch = [m for m in singles if m["c"] == 0 and (
+            (m["op"] == "dup" and tuple(m["when"]) == ("sends", 0)) or m["op"] == "resend"
+            or (m["op"] == "flipdup" and tuple(m.get("when", ("sends", 0))) == ("sends", 0) and m["i"] == 0))]
+        jobs.append((scn, [sched]))
+        jobs += [(scn, [m, sched]) for m in batch]
+        n_batch = len(batch) + 1
+        n_hist = 0
+        if ncirc == 1 and not spare:
+            for removal, reintro, where in (("none", "all", "all"), ("foreign", "all", "all"), ("foreign", "O", "all"),
+                                            ("own", "all", "all"), ("own", "O", "all"), ("foreign", "O", "relays"),
+                                            ("own", "O", "relays")):
+                if h == 1 and (reintro == "O" or where == "relays"):
+                    continue                      # with one hop the originator is the only node that looks X up
+                jobs.append((scn, [{"site": "history", "op": "moved", "removal": removal, "reintro": reintro,
+                                    "where": where}]))
+                n_hist += 1
         n_pairs = 0
         if thorough and ncirc == 1:
             red = site_ops(h, ncirc, lens, thorough, reduced=True)
@@ -1283,7 +1384,9 @@ def build_jobs(thorough: bool, seed: int) -> tuple[list, dict]:
                 if compatible(a, b):
                     jobs.append((scn, [a, b]))
                     n_pairs += 1
+        stats["batch"] = stats.get("batch", 0) + n_batch
         stats["scenarios"].append({"h": h, "circuits": ncirc, "spares": spare, "single_manipulations": len(singles),
+                                   "batch_mode_plans": n_batch, "peer_moved_histories": n_hist,
                                    "pairs": n_pairs, "candidates_enc_len": lens})
         stats["singles"] += len(singles)
         stats["pairs"] += n_pairs
@@ -1337,6 +1440,7 @@ def run(ctx: core.Ctx) -> core.Report:
         "hop_counts": [1, 2, 3],
         "single_manipulations": stats["singles"],
         "pairs": stats["pairs"],
+        "batch_mode_plans": stats.get("batch", 0),
         "plans_in_which_a_manipulation_fired": fired,
         "scenarios": stats["scenarios"],
         "per_manipulation_class": dict(sorted(per_class.items())),
